@@ -19,6 +19,28 @@ static const VfQuantity* row(int nt, int q) { return g_rows[nt][(size_t)q]; }
 static std::vector<int> g_dimensional;  // indices of dimensional quantity types
 
 static std::string sstr(const char* p, unsigned long n) { return std::string(p, n); }
+// exact unit factors from the symbol expander (tools/symx.py), keyed by unit type and enumerator NAME: used to decide, independently of the
+// library's own result, whether a conversion stays inside the normal range (so that a spurious overflow / underflow is not mistaken for a legitimate one)
+struct UFactor { Q F = 1, O = 0; };
+static std::map<std::string, std::map<std::string, UFactor>> g_ufac;
+static void load_ufactors() {
+  const char* p = std::getenv("VERIF_FACTORS"); if (!p) return;
+  FILE* f = std::fopen(p, "r"); if (!f) return;
+  char type[128], name[128], num[256], den[256], onum[256], oden[256]; int val, pi;
+  const Q kPi = strtoflt128("3.14159265358979323846264338327950288419716939937510582", nullptr);
+  while (std::fscanf(f, "%127s %d %127s %255s %255s %d %255s %255s", type, &val, name, num, den, &pi, onum, oden) == 8) {
+    UFactor u; u.F = strtoflt128(num, nullptr) / strtoflt128(den, nullptr);
+    for (int k = 0; k < pi; k++) u.F *= kPi; for (int k = 0; k > pi; k--) u.F /= kPi;
+    u.O = strtoflt128(onum, nullptr) / strtoflt128(oden, nullptr);
+    g_ufac[type][name] = u;
+  }
+  std::fclose(f);
+}
+static const UFactor* ufactor(const VfQuantity* R, int unit) {
+  auto t = g_ufac.find(R->unit_type); if (t == g_ufac.end()) return nullptr;
+  auto u = t->second.find(R->unit_names[unit]); return u == t->second.end() ? nullptr : &u->second;
+}
+static bool q_normal(int nt, Q v) { const Q a = fabsq(v); return a == 0 || (a >= ldexpq(1, ntinfo(nt).emin + 2) && a <= ldexpq(1, ntinfo(nt).emax - 2)); }
 static int win(int nt) { return nt == 0 ? 16 : nt == 1 ? 200 : 2000; }
 static bool normal_or_zero(int nt, LD v) {
   if (v == 0) return true;
@@ -65,6 +87,20 @@ static Verdict c02_quantity(const Case& c) {
     double e = err_ulps(nt, stored[i], (Q)ref[i], (Q)ref[i]);
     if (e > kOneUlp) return fail("value stored by Q(v, unit)", i, stored[i], ref[i], e, kOneUlp);
   }
+  // independent of the library's own result: when the exact standard-unit value (x*F + O from the symbol expander) is comfortably inside the normal
+  // range, the stored component must be finite, non-zero for non-zero input, and the read-back in the same unit must return the input
+  const UFactor* fu = ufactor(R, u);
+  bool exact_ok[9];
+  for (int i = 0; i < n; i++) {
+    exact_ok[i] = false;
+    if (!fu || !normal_or_zero(nt, v[i]) || v[i] == 0) continue;
+    const Q ex = (Q)v[i] * fu->F + fu->O;
+    if (!q_normal(nt, ex) || ex == 0) continue;
+    exact_ok[i] = true;
+    if (!std::isfinite(stored[i]) || stored[i] == 0)
+      return Verdict::fail(fmt("%s<%s>(%s in %s): component %d is stored as %s although the standard-unit value implied by the unit symbols, %s, is well inside the range of %s: an intermediate of the conversion overflowed or underflowed",
+                               R->name, ntinfo(nt).name, comps_str(v, n).c_str(), R->unit_names[u], i, decld(stored[i]).c_str(), qstr(ex).c_str(), ntinfo(nt).name));
+  }
   if (slots == 0) return Verdict::skip("out-of-normal-range");
   // Create<unit>(...) overloads
   for (int k = 0; k < R->n_create; k++) {
@@ -78,7 +114,8 @@ static Verdict c02_quantity(const Case& c) {
   // read back in the same unit
   R->value_unit(stored, u, out);
   for (int i = 0; i < n; i++) {
-    if (!normal_or_zero(nt, ref[i]) || !normal_or_zero(nt, v[i]) || !normal_or_zero(nt, out[i])) continue;
+    if (!exact_ok[i] && (!normal_or_zero(nt, ref[i]) || !normal_or_zero(nt, v[i]) || !normal_or_zero(nt, out[i]))) continue;
+    if (std::isnan(ref[i]) && !exact_ok[i]) continue;
     Q scale = fabsq((Q)v[i]);
     if (temperature) scale += 500;  // affine units form |v| + |offset/factor| (273.15 or 459.67) on the way
     double e = err_ulps(nt, out[i], (Q)v[i], scale);
@@ -254,7 +291,11 @@ static rc::Gen<Case> gen_c16(int inst) {
   // inside the finite (normal) range of the narrower type: an out-of-range narrowing is undefined behaviour in C++ and is not generated
   const int narrow = ntinfo(nt).mant < ntinfo(t2).mant ? nt : t2;
   const int lim = R->kind == 2 ? 8 : (narrow == 0 ? 100 : narrow == 1 ? 900 : 12000);
-  return rc::gen::map(gen_reals(n, nt, -lim, lim, kNeg | kZero), [=](const std::vector<LD>& v) { Case c; c.i = {q, nt, t2, via}; c.r = v; return c; });
+  return rc::gen::map(rc::gen::tuple(gen_reals(n, nt, -lim, lim, kNeg | kZero), irange(0, 24)), [=](const std::tuple<std::vector<LD>, int>& t) {
+    Case c; c.i = {q, nt, t2, via}; c.r = std::get<0>(t);
+    if (std::get<1>(t) == 0) for (auto& x : c.r) x = 0;                                   // the all-zero value (zero vector, zero direction)
+    if (std::get<1>(t) == 1) for (auto& x : c.r) x = std::signbit(x) ? -(LD)0 : (LD)0;    // signed zeros
+    return c; });
 }
 
 // ================================================================================================ C17
@@ -511,7 +552,7 @@ static rc::Gen<Case> gen_c15_number(int nt) {
 
 // ================================================================================================
 int main(int argc, char** argv) {
-  load_rows();
+  load_rows(); load_ufactors();
   for (int q = 0; q < NQ(); q++) if (row(0, q)->kind == 0) g_dimensional.push_back(q);
   std::vector<Sub> subs;
   auto iname = [](int inst) { return std::string(row(inst / NQ() % 3, inst % NQ())->name) + "/" + ntinfo(inst / NQ() % 3).name; };
@@ -520,7 +561,7 @@ int main(int argc, char** argv) {
     s.gen = [](int inst) {
       const int nd = (int)g_dimensional.size(); const int q = g_dimensional[(size_t)(inst % nd)], nt = inst / nd;
       const VfQuantity* R = row(nt, q);
-      const int ww = nt == 0 ? 60 : nt == 1 ? 900 : 12000;   // slots whose conversion leaves the normal range are skipped one by one
+      const int ww = nt == 0 ? 120 : nt == 1 ? 1010 : 16000;   // slots whose conversion leaves the normal range are skipped one by one
       return rc::gen::map(rc::gen::tuple(irange(0, R->n_units - 1), irange(0, R->n_units - 1), rc::gen::oneOf(gen_reals(R->ncomp, nt, -win(nt), win(nt), kNeg | kZero), gen_reals(R->ncomp, nt, -ww, ww, kNeg | kZero))),
                           [=](const std::tuple<int, int, std::vector<LD>>& t) { Case c; c.i = {q, nt, std::get<0>(t), std::get<1>(t)}; c.r = std::get<2>(t); return c; });
     };
